@@ -196,3 +196,50 @@ theorem likN_reroot (h : Pulley π P) (props : Fin K → R) (data : String → F
 
 end
 end TT.C02
+
+/-! ### `allRootings` has `2n − 3` elements -/
+namespace TT.C02
+open TT TT.C01
+
+section count
+variable {L : Type} [Add L] [Zero L]
+
+def LTree.internalCount {β : Type} : LTree β → Nat
+  | .leaf _ _ => 0
+  | .node l r _ => l.internalCount + r.internalCount + 1
+
+theorem LTree.names_length {β : Type} (T : LTree β) : T.names.length = T.internalCount + 1 := by
+  induction T with
+  | leaf nm b => rfl
+  | node l r b hl hr => simp [LTree.names, LTree.internalCount, hl, hr]; omega
+
+theorem LTree.size_eq {β : Type} (T : LTree β) : T.size = 2 * T.internalCount + 1 := by
+  induction T with
+  | leaf nm b => rfl
+  | node l r b hl hr => simp [LTree.size, LTree.internalCount, hl, hr]; omega
+
+theorem belowLeft_length : ∀ (f : Nat) (U V : LTree L) (b : L), U.size ≤ f →
+    (belowLeft f (.node U V b)).length = 2 * U.internalCount
+  | 0, U, _, _, h => by
+    have := LTree.size_eq U
+    omega
+  | f + 1, .leaf nm a, V, b, _ => by simp [belowLeft, LTree.internalCount]
+  | f + 1, .node X Y a, V, b, h => by
+    have hs : (LTree.node X Y a).size = X.size + Y.size + 1 := rfl
+    have h1 := belowLeft_length f X (.node Y (V.setBranch (a + V.branch)) 0) b (by omega)
+    have h2 := belowLeft_length f Y (.node X (V.setBranch (a + V.branch)) 0) b (by omega)
+    simp only [belowLeft, stepLeft, swapLeft, List.length_cons, List.length_append, h1, h2,
+      LTree.internalCount]
+    omega
+
+/-- `allRootings` lists `2n − 3` rooted trees for a tree with `n` leaves -/
+theorem allRootings_length (l r : LTree L) (b : L) :
+    (allRootings (.node l r b)).length = 2 * (LTree.node l r b).names.length - 3 := by
+  have hs : (LTree.node l r b).size = l.size + r.size + 1 := rfl
+  simp only [allRootings, swapRoot, List.length_cons, List.length_append]
+  rw [belowLeft_length _ l r b (by omega), belowLeft_length _ r l b (by omega), LTree.names_length]
+  simp only [LTree.internalCount]
+  omega
+
+end count
+end TT.C02
